@@ -7,7 +7,8 @@ for d in /verif/seeded/C*; do
   pf=$d/patch.diff; [ -f $d/patch_current.diff ] && pf=$d/patch_current.diff
   if ! git -C /repo apply --check $pf 2>/dev/null; then echo "$id: patch does not apply to the current tree"; bad=1; continue; fi
   git -C /repo apply $pf
-  out=$(./bin/h2lint -property $id -tier quick 2>&1); rc=$?
+  prop=${id:0:3}
+  out=$(./bin/h2lint -property $prop -tier quick 2>&1); rc=$?
   git -C /repo checkout -- .
   rule=$(echo "$out" | grep -m1 '^FAIL' | sed 's/^FAIL rule=\([^ ]*\).*/\1/')
   if [ $rc -eq 1 ]; then echo "$id: reported by $rule"; else echo "$id: NOT REPORTED (exit $rc)"; bad=1; fi
